@@ -36,8 +36,8 @@ static int f_open, f_closed;
 
 /* ------------------------------------------------------------------ recorded effects */
 #define MAXOUT (2 * VF_LINES + 2)
-enum { O_PASS, O_FAIL, O_ERRSTR, O_OTHER };
-static struct { int kind; const char *arg; } outv[MAXOUT];
+/* stdout, one entry per fprintf call: the first four characters written and the last %s argument */
+static struct { char head[5]; const char *last_arg; } outv[MAXOUT];
 static unsigned nout;
 static struct { unsigned char b[CAP]; size_t len; bool ret; } callv[VF_LINES + 1];
 static unsigned ncall;
@@ -101,18 +101,32 @@ static ssize_t vf_getline(char **lineptr, size_t *n, FILE *fh)
 }
 static int vf_fprintf(FILE *fh, const char *fmt, ...)
 {
+    /* format-agnostic: "PASS: %s\n" and "%s: %s\n" with "PASS" as first argument record the same thing */
     va_list ap;
     if (fh != stdout) return 0;           /* usage / summary lines go to stderr */
     VF_ASSERT(nout < MAXOUT, "C20: no more than two output lines per input line");
+    unsigned w = 0;
+    outv[nout].last_arg = NULL;
     va_start(ap, fmt);
-    const char *a = va_arg(ap, const char *);
+    for (unsigned i = 0; i < 12 && fmt[i] != 0; i++) {
+        if (fmt[i] == '%' && fmt[i + 1] == 's') {
+            const char *a = va_arg(ap, const char *);
+            outv[nout].last_arg = a;
+            for (unsigned k = 0; k < 4 && a != NULL && a[k] != 0; k++)
+                if (w < 4) outv[nout].head[w++] = a[k];
+            i++;
+        } else if (w < 4)
+            outv[nout].head[w++] = fmt[i];
+    }
     va_end(ap);
-    int kind = O_OTHER;
-    if (strcmp(fmt, "PASS: %s\n") == 0) kind = O_PASS;
-    else if (strcmp(fmt, "FAIL: %s\n") == 0) kind = O_FAIL;
-    else if (strcmp(fmt, "      %s\n") == 0) kind = O_ERRSTR;
-    outv[nout].kind = kind; outv[nout].arg = a; nout++;
+    outv[nout].head[w] = 0;
+    nout++;
     return 0;
+}
+
+static int head_is(unsigned o, const char *p)
+{
+    return outv[o].head[0] == p[0] && outv[o].head[1] == p[1] && outv[o].head[2] == p[2] && outv[o].head[3] == p[3];
 }
 
 #define fopen vf_fopen
@@ -195,11 +209,12 @@ void harness(void)
             if (i < n - s) VF_ASSERT(callv[want_calls].b[i] == t[s + i], "C20: the library is given the trimmed line (bytes)");
         VF_ASSERT(o < nout, "C20: exactly one verdict per non-comment line");
         if (callv[want_calls].ret) {
-            VF_ASSERT(outv[o].kind == O_PASS && outv[o].arg == k_sanitized, "C20: PASS iff the library accepted, followed by the echoed line");
+            VF_ASSERT(head_is(o, "PASS") && outv[o].last_arg == k_sanitized, "C20: PASS iff the library accepted, followed by the echoed line");
             o += 1;
         } else {
-            VF_ASSERT(outv[o].kind == O_FAIL && outv[o].arg == k_sanitized, "C20: FAIL iff the library rejected, followed by the echoed line");
-            VF_ASSERT(o + 1 < nout && outv[o + 1].kind == O_ERRSTR && outv[o + 1].arg == k_errstr, "C20: a FAIL is followed by the library's error message");
+            VF_ASSERT(head_is(o, "FAIL") && outv[o].last_arg == k_sanitized, "C20: FAIL iff the library rejected, followed by the echoed line");
+            VF_ASSERT(o + 1 < nout && !head_is(o + 1, "PASS") && !head_is(o + 1, "FAIL") && outv[o + 1].last_arg == k_errstr,
+                      "C20: a FAIL is followed by the library's error message");
             o += 2;
         }
         want_calls++;
